@@ -7,7 +7,7 @@ run from freshly constructed inputs and every event of P -- results of its own o
 steps, exceptions, final contents of all variables -- is compared between the two logs."""
 import numpy as np
 from ..core import CTX, attempt, held, violated, short, deep_same
-from .. import contracts, prog
+from .. import contracts, prog, gen
 from . import c06
 
 PROP = "C10"
@@ -22,7 +22,7 @@ ANCHORS = ["raggedarray/base.py::RaggedBase.ravel", "raggedarray/base.py::Ragged
            "raggedarray/__init__.py::RaggedArray.__array_ufunc__", "raggedarray/__init__.py::RaggedArray.__array_function__", "raggedarray/__init__.py::RaggedArray.__iter__",
            "raggedarray/indexablearray.py::IndexableArray.__setitem__", "raggedarray/base.py::RaggedBase.size"]
 FLOOR_TAGS = ["class:A", "class:B", "plan:everything", "plan:random", "inserted-read-on-lazy", "inserted:meta", "inserted:repr", "inserted:tolist", "inserted:sel", "inserted:sum0",
-              "inserted:ell", "inserted:row", "inserted:maskidx"]
+              "inserted:ell", "inserted:row", "inserted:maskidx", "class:buffer", "layout:contiguous", "layout:strided", "layout:matrix-column", "layout:reversed"]
 FLOOR_MONITORS = ["c10:pair", "purity-tap", "global-state"]
 N_RANDOM = {"quick": 3000, "thorough": 100000}
 GLOBAL_STATE_MONITOR = True     # reads must not leak into numpy's print options / error state either
@@ -66,7 +66,115 @@ def make_plans(rng, steps, n_random=2):
     return plans
 
 
+LAYOUTS = ["contiguous", "strided", "matrix-column", "reversed", "readonly-base"]
+BUF_OBS = ["tolist", "ravel", "sum1", "repr", "str", "meta", "row", "elem", "sel", "iter", "max1", "sum0", "maskidx", "cumsum", "sort", "astype", "ell", "nonzero", "add1"]
+
+
+def make_buffer(layout, vals):
+    """-> (the numpy array handed to the constructor, the array that owns its memory)"""
+    n = len(vals)
+    if layout == "contiguous":
+        base = np.array(vals, dtype=np.int64)
+        return base, base
+    if layout == "strided":
+        base = np.full(2 * n + 1, -7, dtype=np.int64)
+        base[1::2] = vals
+        return base[1::2], base
+    if layout == "matrix-column":
+        base = np.full((n, 3), -7, dtype=np.int64)
+        base[:, 1] = vals
+        return base[:, 1], base
+    if layout == "reversed":
+        base = np.array(vals[::-1], dtype=np.int64)
+        return base[::-1], base
+    raise ValueError(layout)
+
+
+def run_buffer_once(case, reads):
+    """one execution of a buffer history; reads: step position -> [(observation, argument)] inserted after that step"""
+    RA = CTX.lib.RaggedArray
+    view, base = make_buffer(case["layout"], case["vals"])
+    ra = RA(view, list(case["lens"]))
+    out = []
+
+    def do_reads(pos):
+        for nm, arg in reads.get(pos, ()):
+            attempt(prog.OBS[nm][0], ra, arg)
+    do_reads(-1)
+    for si, st in enumerate(case["steps"]):
+        if st[0] == "bufwrite":          # the caller writes into the numpy array it built the ragged array from
+            view[st[1]] = st[2]
+        elif st[0] == "assign":
+            ra[st[1], st[2]] = st[3]
+        else:
+            o = attempt(prog.OBS[st[1]][0], ra, st[2])
+            out.append((si, c06.norm(o.value) if o.ok else "raised %s" % type(o.exc).__name__))
+        do_reads(si)
+    return out, ra.tolist(), base.tolist()
+
+
+def run_buffer(case):
+    """a ragged array built over a caller-owned numpy buffer (possibly a non-contiguous view): the history
+    interleaves writes to that buffer, writes to the ragged array and observations; inserted reads must not
+    change any observation, the final content of the array, or the final content of the caller's buffer"""
+    tags = ["class:buffer", "layout:" + case["layout"]]
+    CTX.tick("c10:pair")
+    base = attempt(run_buffer_once, case, {})
+    if not base.ok:
+        return violated("buffer history raised %r: %s" % (base, short(case, 300)), tags)
+    for plan in case["plans"]:
+        rp = {int(k): [tuple(r) for r in v] for k, v in plan.items()}
+        for reads in rp.values():
+            for nm, _ in reads:
+                tags.append("inserted:" + nm)
+        withr = attempt(run_buffer_once, case, rp)
+        if not withr.ok:
+            return violated("buffer history raises %r only with inserted reads %s: %s" % (withr, short(rp, 200), short(case, 300)), sorted(set(tags)) + ["raise-differs"])
+        for what, a, b in zip(("observations", "final content of the array", "final content of the caller's buffer"), base.value, withr.value):
+            if not deep_same(a, b):
+                return violated("RaggedArray over a %s numpy buffer, history %s: %s are %s without and %s with the inserted reads %s" % (
+                    case["layout"], short(case["steps"], 300), what, short(a, 200), short(b, 200), short(rp, 200)), sorted(set(tags)) + ["buffer-detached"], got=b, expected=a)
+    return held(sorted(set(tags)), True)
+
+
+def gen_buffer_case(rng, tier):
+    for _ in range(20):
+        lens, _ = gen.length_vector(rng, tier, maxrows=5, maxlen=5)
+        if sum(lens):
+            break
+    else:
+        lens = [2, 0, 3]
+    tot = sum(lens)
+    vals = [rng.randint(1, 90) for _ in range(tot)]
+    rows = [r.tolist() for r in gen.split_rows(np.array(vals), lens)]
+    cells = [(i, j) for i, l in enumerate(lens) for j in range(l)]
+
+    def one_obs():
+        for _ in range(10):
+            nm = rng.choice(BUF_OBS)
+            if prog.obs_applicable(nm, rows):
+                return nm, prog.obs_arg(rng, nm, rows)
+        return "tolist", None
+    steps = []
+    for _ in range(rng.randint(3, 8)):
+        u = rng.random()
+        if u < 0.4:
+            steps.append(["bufwrite", rng.randrange(tot), rng.randint(100, 999)])
+        elif u < 0.55:
+            i, j = rng.choice(cells)
+            steps.append(["assign", i, j, rng.randint(1000, 1999)])
+        else:
+            steps.append(["obs"] + list(one_obs()))
+    steps.append(["obs", "tolist", None])
+    plans = [{str(si): [list(one_obs())] for si in range(-1, len(steps))}]
+    for _ in range(2):
+        plans.append({str(si): [list(one_obs())] for si in rng.sample(range(-1, len(steps)), rng.randint(1, 2))})
+    return {"kind": "buffer", "layout": rng.choice(LAYOUTS[:-1]), "lens": lens, "vals": vals, "steps": steps, "plans": plans}
+
+
 def run(case):
+    if case.get("kind") == "buffer":
+        return run_buffer(case)
     steps = case["steps"]
     tags = ["class:" + ("B" if case.get("hazard") else "A")]
     pdesc = c06.describe(steps)
@@ -201,6 +309,8 @@ def directed():
         steps = [{"op": "init", "v": "a0", "rows": [[1, 2], [3, 4, 5], [6, 7]]}, {"op": "obs", "u": "a0", "what": "rowscol", "arg": [rows_.copy(), 1]},
                  {"op": "sel", "v": "a1", "u": "a0", "rs": slice(None, None, -1), "cs": None, "has_cs": False}, {"op": "obs", "u": "a1", "what": "rowscol", "arg": [rows_.copy(), -1]}]
         yield {"steps": steps, "hazard": False, "plans": [{"kind": "everything", "reads": {"0": [["a0", "rowscol", [rows_.copy(), 0]]], "2": [["a1", "rowscol", [rows_.copy(), 0]]]}}]}
+    for _ in range(120):
+        yield gen_buffer_case(rng, "quick")
     for _ in range(250):
         yield with_plans(rng, prog.gen_program(rng, "quick"))
     for _ in range(120):
@@ -212,10 +322,14 @@ def directed():
 
 
 def random_case(rng, tier):
+    if rng.random() < 0.12:
+        return gen_buffer_case(rng, tier)
     return with_plans(rng, prog.gen_program(rng, tier, allow_hazard=rng.random() < 0.05, dtype="float64" if rng.random() < 0.3 else "int64", big=rng.random() < 0.08), 2 if tier == "quick" else 3)
 
 
 def classify(case, res):
+    if case.get("kind") == "buffer":
+        return None
     if case.get("hazard") and any(t in ("final-differs", "raise-differs") or t.startswith("obs-differs") for t in res["tags"]):
         return "F10"
     return None
